@@ -448,7 +448,7 @@ _RULE = ("operation list (step/clear/query) on a {0} synapse; non-trivial iff so
 
 def _leg(kind):
     return Leg(name=kind, run=run_case, strategy=lambda tier, k=kind: syn_case(k, tier),
-               quick=300, thorough=3000, quick_shards=4, thorough_shards=4, nt_floor=0.3,
+               quick=400, thorough=4000, quick_shards=4, thorough_shards=4, nt_floor=0.3,
                rule=_RULE.format(kind))
 
 
